@@ -477,3 +477,97 @@ M('c17-disconnect-flag-only-with-room', 'C17', 'R6', WS,
 M('c17-disconnect-flag-after-yield', 'C17', 'R6', WS,
   "            received_event = await self._asgi_receive()\n            if received_event['type']",
   "            received_event = await self._asgi_receive()\n            await asyncio.sleep(0)\n            if received_event['type']")
+
+# ------------------------------------------------------------------ R1: additional members of the state enum (wave 5, s5-c17-1)
+# The model reads the members from the Enum; a member that close()/the disconnect paths record is one more way of being
+# closed, and every guard is evaluated for it.
+_ENUM_OLD = "    ACCEPTED = auto()\n    CLOSED = auto()\n"
+_CLOSED_PROP_OLD = """            self._state == _WebSocketState.CLOSED
+            or self._buffered_receiver.client_disconnected"""
+_CLOSED_PROP_DENIED = """            self._state in (_WebSocketState.CLOSED, _WebSocketState.DENIED)
+            or self._buffered_receiver.client_disconnected"""
+_CLOSE_WRITE_OLD = """        await self._asgi_send(response)
+
+        self._state = _WebSocketState.CLOSED
+"""
+_CLOSE_WRITE_DENIED = """        await self._asgi_send(response)
+
+        if self._state == _WebSocketState.HANDSHAKE:
+            self._state = _WebSocketState.DENIED
+        else:
+            self._state = _WebSocketState.CLOSED
+"""
+_SEND_GUARD_OLD = """        if self._state == _WebSocketState.CLOSED:
+            raise errors.WebSocketDisconnected(self._close_code)
+
+        try:"""
+# the seed: close() during the handshake records DENIED, `closed` knows it, _send/_require_accepted still test CLOSED only
+M2('c17-denied-state-guards-test-closed-only', 'C17', 'R1', [
+    {'file': WS, 'old': _ENUM_OLD, 'new': "    ACCEPTED = auto()\n    DENIED = auto()\n    CLOSED = auto()\n"},
+    {'file': WS, 'old': _CLOSED_PROP_OLD, 'new': _CLOSED_PROP_DENIED},
+    {'file': WS, 'old': _CLOSE_WRITE_OLD, 'new': _CLOSE_WRITE_DENIED},
+])
+# _send learnt the new member, the shared guard of send_*/receive_* did not: receive_*() after a denial calls the server again
+M2('c17-denied-state-require-accepted-tests-closed-only', 'C17', 'R1', [
+    {'file': WS, 'old': _ENUM_OLD, 'new': "    ACCEPTED = auto()\n    DENIED = auto()\n    CLOSED = auto()\n"},
+    {'file': WS, 'old': _CLOSED_PROP_OLD, 'new': _CLOSED_PROP_DENIED},
+    {'file': WS, 'old': _CLOSE_WRITE_OLD, 'new': _CLOSE_WRITE_DENIED},
+    {'file': WS, 'old': _SEND_GUARD_OLD, 'new': """        if self._state in (_WebSocketState.CLOSED, _WebSocketState.DENIED):
+            raise errors.WebSocketDisconnected(self._close_code)
+
+        try:"""},
+])
+# a separate member for "the client left" recorded by _receive; `closed` was not taught: the final close() emits after the disconnect
+M2('c17-lost-state-recorded-by-receive', 'C17', 'R1', [
+    {'file': WS, 'old': _ENUM_OLD, 'new': "    ACCEPTED = auto()\n    CLOSED = auto()\n    LOST = auto()\n"},
+    {'file': WS, 'old': """            assert event_type == EventType.WS_DISCONNECT
+
+            self._state = _WebSocketState.CLOSED
+""", 'new': """            assert event_type == EventType.WS_DISCONNECT
+
+            self._state = _WebSocketState.LOST
+"""},
+])
+
+# ------------------------------------------------------------------ R3: the cleanup fallback serves every failure of the first close (s5-c17-3)
+_CLEANUP_OLD = """        except Exception as ex:
+            # NOTE(kgriffs): This can be raised by Daphne. We also
+            #   may raise it ourselves for errors codes < 1000, but in that
+            #   case we just include this string in the exception message
+            #   to make it easier to verify test coverage of the following.
+            if 'invalid close code' in str(ex).lower():
+                await ws.close(_FALLBACK_WS_ERROR_CODE)
+            else:
+                falcon._logger.warning(
+                    (
+                        '[FALCON] Attempt to close web connection cleanly '
+                        'failed due to raised error.'
+                    ),
+                    exc_info=True,
+                )
+                raise
+"""
+M('c17-cleanup-fallback-only-for-valueerror', 'C17', 'R3', APP, _CLEANUP_OLD, """        except ValueError:
+            await ws.close(_FALLBACK_WS_ERROR_CODE)
+        except Exception:
+            falcon._logger.warning(
+                (
+                    '[FALCON] Attempt to close web connection cleanly '
+                    'failed due to raised error.'
+                ),
+                exc_info=True,
+            )
+            raise
+""")
+M('c17-cleanup-fallback-arm-narrowed-to-tuple', 'C17', 'R3', APP,
+  "        except Exception as ex:\n            # NOTE(kgriffs): This can be raised by Daphne.",
+  "        except (ValueError, TypeError) as ex:\n            # NOTE(kgriffs): This can be raised by Daphne.")
+M('c17-cleanup-generic-arm-before-fallback-arm', 'C17', 'R3', APP, _CLEANUP_OLD, """        except RuntimeError as ex:
+            if 'invalid close code' in str(ex).lower():
+                await ws.close(_FALLBACK_WS_ERROR_CODE)
+            else:
+                raise
+        except Exception:
+            falcon._logger.warning('[FALCON] Attempt to close web connection cleanly failed due to raised error.', exc_info=True)
+            raise
+""")
